@@ -68,10 +68,12 @@ CastOptsOf(o) == [cast |-> TRUE, toInt |-> o.castInt, toFloat |-> o.castFloat, t
 
 \* new-value strings "k<sep>v" of UpdateValuesForPath: split by the SAME field-separator register as sub-keys
 NewValStrs == {<<"c", ":", "N">>, <<"c", "|", "N">>, <<"c", "|", "x", ":", "N">>, <<"c", ":", "x", "|", "N">>,
-               <<"c", ":", ":", "N">>, <<"c", ":", ":", "x", ":", "N">>}       \* (a separator of two characters)
+               <<"c", ":", ":", "N">>, <<"c", ":", ":", "x", ":", "N">>,       \* (a separator of two characters)
+               <<"c", ":", "0", "1", "0", ":", "n", "u", "m">>, <<"c", ":", "t", ":", "b", "o", "o", "l">>}     \* typed forms: the float64 ten (decimal), the bool true
 UpdResult(o, s) == LET ps == SplitOn(s, o.fieldSep) IN
                    IF NewValClass(s, o.fieldSep) = "err" THEN [ok |-> FALSE, c |-> 0, post |-> ProbeQMap]
-                   ELSE LET r == UpdateOp(ProbeQMap, Join(ps[1]), VS(Join(ps[2])), <<"a">>, {}) IN [ok |-> TRUE, c |-> r.c, post |-> r.n]
+                   ELSE LET nv == IF Len(ps) = 2 THEN VS(Join(ps[2])) ELSE IF TypeName(ps[3]) = "bool" THEN VB("true") ELSE VF(NumCanon(ps[2]))
+                            r == UpdateOp(ProbeQMap, Join(ps[1]), nv, <<"a">>, {}) IN [ok |-> TRUE, c |-> r.c, post |-> r.n]
 \* Elements / Attributes of the node "doc" of the leaf probe: keys in byte order, split by the attribute prefix
 StructKeys == <<"#text", "-x", "@y", "_text", "e">>
 IsAttrK(o, k) == o.attrPrefix # "" /\ SubSeq(k, 1, Len(o.attrPrefix)) = o.attrPrefix
@@ -91,7 +93,7 @@ WidePaths == {<<PK("a", -1)>>, <<PK("a", 33)>>, <<PK("*", -1)>>}
 \* RenameKey("a.b", new) on {a:{b:1, c:2, ab-c:3}}: the new name is taken literally whatever the key-folding registers hold;
 \* an existing sibling name is refused
 RenameProbe == VM("a" :> VM(("b" :> VS("1")) @@ ("c" :> VS("2")) @@ ("ab-c" :> VS("3"))))
-RenameNames == {"Ab-c", "c", "AB-C"}
+RenameNames == {"Ab-c", "c", "AB-C", "x.c"}      \* ("x.c": a new NAME is one key, separator or not; its tail "c" is an existing sibling)
 RenameResult(nn) == IF nn \in DOMAIN RenameProbe.kv["a"].kv THEN VS("refused")
                     ELSE VM("a" :> VM([k \in ((DOMAIN RenameProbe.kv["a"].kv) \ {"b"}) \cup {nn} |->
                                            IF k = nn THEN RenameProbe.kv["a"].kv["b"] ELSE RenameProbe.kv["a"].kv[k]]))
@@ -103,6 +105,24 @@ UpdKResult(o, s) == LET pc == ParseSubKey(s, o.fieldSep) IN
 NumTok(o, t) == IF o.jsonUseNumber THEN [t |-> "jn", v |-> t] ELSE VF(t)
 CopyResult(o) == VM(("n" :> (IF o.jsonUseNumber THEN [t |-> "jn", v |-> "1.50"] ELSE VF("1.5"))) @@ ("s" :> VS("x")) @@ ("l" :> VL(<<NumTok(o, "2"), VS("y")>>)))
 
+\* XMPP streams: with HandleXMPPStreamTag the element named "stream" is returned AT ITS START TAG (its attributes only); what
+\* follows in the reader are documents of their own and the final </stream:stream> is an unexpected end tag.  Without the
+\* register the stream is one ordinary document.  (The Map decoder compares the local name, the sequence decoder "stream:stream".)
+XmppAttrs == <<[nm |-> N(<<"t", "o">>), v |-> <<"x">>], [nm |-> N(<<"A", "-", "b">>), v |-> <<"&">>]>>
+XmppKids == <<XE(N(<<"a">>), <<>>, <<XT(<<"1">>)>>), XE(N(<<"B", "-", "c">>), <<[nm |-> N(<<"k">>), v |-> <<"q">>]>>, <<XT(<<" ", "2", " ">>)>>)>>
+XmppName == NM("stream", <<"s", "t", "r", "e", "a", "m">>)
+XmppFull == XE(XmppName, XmppAttrs, XmppKids)
+XmppHead == XE(XmppName, XmppAttrs, <<>>)
+XmppResult(o, arg) ==
+  LET D(d) == IF arg \in {"seq", "seqreader"} THEN Jsonable(DecodeSeq(d, SeqOpts(o))) ELSE Jsonable(Decode(d, DecOpts(o, FALSE)))
+      rdr == arg \in {"reader", "seqreader"}
+  IN IF ~o.xmpp THEN [ms |-> <<D(XmppFull)>>, end |-> IF rdr THEN "EOF" ELSE "none"]
+     ELSE IF ~rdr THEN [ms |-> <<D(XmppHead)>>, end |-> "none"]
+     ELSE [ms |-> <<D(XmppHead)>> \o [i \in 1..Len(XmppKids) |-> D(XmppKids[i])], end |-> "err"]
+
+\* j2x on a document with a non-canonical numeral: the XML of the Map NewMapJson gives under the JsonUseNumber register
+J2xNumResult(o) == LET mm == VM((<<"n">> :> (IF o.jsonUseNumber THEN [t |-> "jn", v |-> <<"1", ".", "5", "0">>] ELSE VF(<<"1", ".", "5">>))) @@ (<<"s">> :> VS(<<"x">>)))
+                   IN Join(RenderCompact(EncodeRoot(mm, <<>>, EncOpts(o)), EncOpts(o)))
 \* the operations: [op |-> class, arg |-> which]
 AllOps == {[op |-> "dec", arg |-> a] : a \in {"plain", "cast"}} \cup {[op |-> "seq", arg |-> "plain"], [op |-> "enc", arg |-> "plain"]}
           \cup {[op |-> "leaf", arg |-> a] : a \in {"T", "F"}}
@@ -116,8 +136,11 @@ AllOps == {[op |-> "dec", arg |-> a] : a \in {"plain", "cast"}} \cup {[op |-> "s
           \cup {[op |-> "struct", arg |-> a] : a \in {"elems", "attrs"}}   \* Elements("doc") / Attributes("doc") of the leaf probe
           \cup {[op |-> "seqrt", arg |-> "plain"]}                         \* MapSeq.Xml() of NewMapXmlSeq(probe)
           \cup {[op |-> "json", arg |-> a] : a \in {"plain", "reader"}}                          \* NewMapJson of a document with a non-canonical numeral
+          \cup {[op |-> "xmpp", arg |-> a] : a \in {"map", "seq", "reader", "seqreader"}}        \* NewMapXml / NewMapXmlSeq / successive ...Reader calls on an XMPP stream
+          \cup {[op |-> "legacy", arg |-> a] : a \in {"x2j", "x2jcast", "j2x", "j2xnum"}}       \* the wrappers: x2j-wrapper DocToMap(probe[, true]) (with ITS OWN CastNanInf flag on), j2x.JsonToXml(probe Map as JSON)
           \cup {[op |-> "cast", arg |-> t] : t \in CastTexts}          \* NewMapXml(<r><c>t</c><c>t</c></r>, true): kind and token of both members of r.c
-Enabled(o, op) == CASE op.op \in {"seq", "enc", "cast", "seqrt", "beautify"} -> CodecDomain(o)
+Enabled(o, op) == CASE op.op \in {"seq", "enc", "cast", "seqrt", "beautify", "xmpp"} -> CodecDomain(o)
+                    [] op.op = "legacy" -> CodecDomain(o) /\ (op.arg = "x2jcast" => DefaultCastRegs(o))
                     [] op.op = "dec" -> CodecDomain(o) /\ (op.arg = "cast" => DefaultCastRegs(o))   \* (the decode specification models the default cast registers; the full chain is MxjCast)
                     [] OTHER -> TRUE
 \* the result the specification gives for an operation under registers o
@@ -141,6 +164,10 @@ OpResult(o, op) ==
     [] op.op = "seqrt" -> LET so == SeqOpts(o) IN
                           Join(RenderSeq(EncodeSeqRoot(DecodeSeq(ProbeSeqDoc, so), so), [apfx |-> "-", kpfx |-> o.keyPrefix, esc |-> o.escEnc, goempty |-> o.goEmpty]))
     [] op.op = "json" -> JsonProbeResult(o)
+    [] op.op = "xmpp" -> XmppResult(o, op.arg)
+    [] op.op = "legacy" -> IF op.arg = "j2xnum" THEN [x |-> J2xNumResult(o), m |-> EmptyMap]        \* all four j2x JSON -> XML entry points on {"n":1.50,"s":"x"}
+                           ELSE IF op.arg = "j2x" THEN [x |-> Join(RenderCompact(EncodeRoot(ProbeMap, <<>>, EncOpts(o)), EncOpts(o))), m |-> EmptyMap]
+                           ELSE [x |-> "", m |-> Jsonable(Decode(ProbeDoc, DecOpts(o, op.arg = "x2jcast")))]      \* the wrappers are the core under the registers in force
     [] op.op = "cast" -> CastOf(CHOOSE c \in Catalogue : c.s = op.arg, CastOptsOf(o), FALSE)     \* (the harness' skip function never names the key "c")
 
 ActiveOpSet == {op \in AllOps : op.op \in ActiveOps}
@@ -166,6 +193,8 @@ OpClass(op) == CASE op = "dec" -> "decodeCast" [] op = "seq" -> "decodeSeq" [] o
 RelOf(op) == IF op = "cast" THEN CastRegs \ {"skipTag"}
              ELSE IF op = "copy" THEN {"jsonUseNumber"}
              ELSE IF op \in {"newmap", "vfp", "beautify", "rename"} THEN {}
+             ELSE IF op = "legacy" THEN Relevant["decodeCast"] \cup Relevant["encode"] \cup Relevant["jsonDecode"]
+             ELSE IF op = "xmpp" THEN Relevant["decode"] \cup Relevant["decodeSeq"]
              ELSE IF op = "seqrt" THEN Relevant["decodeSeq"] \cup Relevant["encodeSeq"]
              ELSE Relevant[OpClass(op)]
 OnlyRelevant == Len(hist) = MaxHist => \A op \in ActiveOpSet :      \* (evaluated where a session ends: it is a function of opt alone)
@@ -176,5 +205,5 @@ Emit == Len(hist) = MaxHist =>
    PrintT(ToJson([f |-> "mxj", hist |-> hist, restore |-> RestoreCalls(TRUE)]))
 AllFns == ToggleNames \cup {"DisableTrimWhiteSpace", "PrependAttrWithHyphen", "SetAttrPrefix", "XMLEscapeChars", "XMLEscapeCharsDecoder",
            "XmlGoEmptyElemSyntax", "XmlDefaultEmptyElemSyntax", "SetFieldSeparator", "SetArraySize", "SetGlobalKeyMapPrefix", "JsonUseNumber"}
-AllOpNames == {"dec", "seq", "enc", "leaf", "query", "cast", "upd", "struct", "seqrt", "json", "newmap", "vfp", "beautify", "copy", "rename", "updk"}
+AllOpNames == {"dec", "seq", "enc", "leaf", "query", "cast", "upd", "struct", "seqrt", "json", "newmap", "vfp", "beautify", "copy", "rename", "updk", "xmpp", "legacy"}
 =============================================================================
